@@ -8,6 +8,9 @@ import Arc.Model.C12
     scan <oracle>     ScanAndRegisterFiles                         -> scan=ok|scan=crash  <state>
     cycle <oracle>    RunMigrationCycle                            -> cycle=ok|cycle=crash  <state>
     age               > 48 h pass (migrated_at leaves the reconcile window)      -> ok <state>
+    tick <sec>        virtual time passes                                        -> ok
+    query             a query in the RUNNING process (30 s tier cache)            -> globs=<tiers> vis=<n>
+    addmig <k> <older|newer>  k more files of the measurement ingested + migrated cleanly (earlier/later than F) -> ok <state>
     obs               what is on disk / in SQLite / what a query returns -> <state> globs=<tiers> vis=<n>
 
   oracle: string over o(k) f(ail) c(rash) r(source read of the copy fails), "-" = empty.  -/
@@ -15,9 +18,7 @@ open Arc.Proto Arc.C12
 
 structure DS where
   n : Nat := 1
-  sibHot : Bool := false
-  sibCold : Bool := false
-  s : FileSt := Arc.C12.init
+  w : World := { f := Arc.C12.init, sibHot := false, sibCold := false }
 
 def parseOracle (s : String) : Option (List Outcome) :=
   if s == "-" then some [] else
@@ -32,46 +33,60 @@ def stStr (s : FileSt) : String :=
   let p := match s.part with | none => "-" | some k => toString k
   s!"h={b01 s.hot} c={b01 s.cold} p={p} t={tierStr s.tier} pend={s.pend} r={b01 s.recent}"
 
+def globStr (g : List Tier) : String := if g.isEmpty then "-" else ",".intercalate (g.map tierStr)
+
 def stepC12 (d : DS) (fs : List String) : DS × String :=
   match fs with
   | ["new", n, sh, sc] =>
     match nat? n with
-    | some n => ({ n := n, sibHot := sh == "1", sibCold := sc == "1", s := Arc.C12.init }, "ok")
+    | some n => ({ n := n, w := { f := Arc.C12.init, sibHot := sh == "1", sibCold := sc == "1" } }, "ok")
     | none => (d, "bad-op")
   | ["mig", o] =>
     match parseOracle o with
     | some orc =>
-      let r := migOp d.n d.s orc
+      let r := migOp d.n d.w.f orc
       let res := match r.2 with
         | none => "0/0" | some .ok => "1/0" | some .err => "0/1" | some .crash => "crash"
-      ({ d with s := r.1.st }, s!"mig={res} {stStr r.1.st}")
+      ({ d with w := wMig d.n d.w orc }, s!"mig={res} {stStr r.1.st}")
     | none => (d, "bad-op")
   | ["rec", o] =>
     match parseOracle o with
     | some orc =>
-      let r := recOp d.s orc
+      let r := recOp d.w.f orc
       let res := if r.2.crashed then "crash" else s!"{r.2.found}/{r.2.deleted}/{r.2.errors}"
-      ({ d with s := r.1.st }, s!"rec={res} {stStr r.1.st}")
+      ({ d with w := wRec d.w orc }, s!"rec={res} {stStr r.1.st}")
     | none => (d, "bad-op")
   | ["scan", o] =>
     match parseOracle o with
     | some orc =>
-      let r := scanOp d.s orc
+      let r := scanOp d.w.f orc
       let res := if r.2 == .crashed then "crash" else "ok"
-      ({ d with s := r.1.st }, s!"scan={res} {stStr r.1.st}")
+      ({ d with w := wScan d.w orc }, s!"scan={res} {stStr r.1.st}")
     | none => (d, "bad-op")
   | ["cycle", o] =>
     match parseOracle o with
     | some orc =>
-      let r := cycleOp d.n d.s orc
+      let r := wCycle d.n d.w orc
       let res := if r.2 then "crash" else "ok"
-      ({ d with s := r.1 }, s!"cycle={res} {stStr r.1}")
+      ({ d with w := r.1 }, s!"cycle={res} {stStr r.1.f}")
     | none => (d, "bad-op")
-  | ["age"] => ({ d with s := ageOp d.s }, s!"ok {stStr (ageOp d.s)}")
+  | ["age"] => ({ d with w := wAge d.w }, s!"ok {stStr (wAge d.w).f}")
+  | ["tick", k] =>
+    match nat? k with
+    | some k => ({ d with w := wTick d.w k }, "ok")
+    | none => (d, "bad-op")
+  | ["addmig", k, pos] =>
+    match nat? k with
+    | some k =>
+      if pos == "older" || pos == "newer" then ({ d with w := wAddMig d.w k }, s!"ok {stStr d.w.f}")
+      else (d, "bad-op")
+    | none => (d, "bad-op")
+  | ["query"] =>
+    let r := wQuery d.w
+    ({ d with w := r.1 }, s!"globs={globStr r.2} vis={warmVisible d.w}")
   | ["obs"] =>
-    let g := globbed (actualTiers d.sibHot d.sibCold d.s)
-    let gs := if g.isEmpty then "-" else ",".intercalate (g.map tierStr)
-    (d, s!"{stStr d.s} globs={gs} vis={visibleCopies d.sibHot d.sibCold d.s}")
+    let g := globbed (actualTiers d.w.sibHot d.w.sibCold d.w.f)
+    (d, s!"{stStr d.w.f} globs={globStr g} vis={visibleCopies d.w.sibHot d.w.sibCold d.w.f}")
   | _ => (d, "bad-op")
 
 def main : IO Unit := Arc.Proto.run stepC12 {}
